@@ -385,6 +385,10 @@ func writeEvidence(prop, tier string, seed int, res []*fnResult, all []*Oblig, c
 					trusted[g.ifaceCoverage(strings.TrimPrefix(k, "iface:"))] = true
 					continue
 				}
+				if strings.HasPrefix(k, "funcvar:") {
+					trusted["package-level function variable treated as a constant (set only by its declaration in the loaded packages): "+strings.TrimPrefix(k, "funcvar:")] = true
+					continue
+				}
 				trusted["assumed contract: "+k] = true
 			}
 			if strings.HasPrefix(r.Key, "refines:") {
